@@ -79,6 +79,10 @@ func (m *Machine) setupIntrinsics() {
 	reg("vNondetI64", nondet(64, true, "i64"))
 	reg("vNondetF32", func(m *Machine, a []Val) Val { return Float{Bits: 32, T: m.freshDraw(32, "f32")} })
 	reg("vNondetF64", func(m *Machine, a []Val) Val { return Float{Bits: 64, T: m.freshDraw(64, "f64")} })
+	reg("vFaultIndex", func(m *Machine, a []Val) Val {
+		return Int{Bits: 64, Signed: true, T: m.freshDraw(64, "fault")}
+	})
+	reg("vFaultFired", func(m *Machine, a []Val) Val { return nil })
 	reg("vChoose", func(m *Machine, a []Val) Val {
 		n := a[0].(Int).AsInt()
 		k := m.choose(n)
